@@ -79,7 +79,7 @@ def shards(tier):
 
 def floors(tier):
     return {"cases": 20000, "insertions": 20000, "insertions_depth2plus": 1000, "would_fail_values": 8000,
-            "next_to_ref": 1000, "base_uri_cases": 100, "own_id_next_to_ref": 100, "foreign_sibling_matrix_cases": 50000, "root_ref_cases": 500, "embedded_lookalike_cases": 2000, "empty_or_hash_ref_cases": 1000, "cases_with_errors": 5000, "foreign_names_used": 150,
+            "next_to_ref": 1000, "base_uri_cases": 100, "own_id_next_to_ref": 100, "foreign_sibling_matrix_cases": 50000, "root_ref_cases": 500, "embedded_lookalike_cases": 2000, "empty_or_hash_ref_cases": 1000, "cross_document_chain_cases": 5000, "cases_with_errors": 5000, "foreign_names_used": 150,
             "foreign_id_in_store_document_cases": 100, "check_schema_compared": 5000, "many_foreign_member_cases": 100, "module_validate_with_foreign_dollar_schema": 5000}
 
 
@@ -126,7 +126,8 @@ def errors_of(d, schema, inst, resolver=None):
         for e in v.iter_errors(inst):       # what validate() raises: the first error, in the order they are produced
             first = fp(e, message=False)
             break
-        return "ok", [fps(errs, message=False), None if best is None else fp(best, message=False), [fp(e, message=False) for e in errs], first]
+        return "ok", [fps(errs, message=False), None if best is None else fp(best, message=False), [fp(e, message=False) for e in errs], first,
+                      v.is_valid(inst)]
     except X.RefResolutionError as e:
         return "RefResolutionError", None
     except X.UnknownType:
@@ -238,6 +239,8 @@ def compare(ctx, d, S, S2, log, inst, resolver_factory=None, mech=None):
     elif f0[2] != f1[2] or f0[3] != f1[3]:
         ctx.violation("error-order-changed", case, "same errors, produced in another order (first: %r without, %r with the insertions; the members the "
                       "schema already had keep their relative order)" % (f0[3] and f0[3][:4], f1[3] and f1[3][:4]), mech=mech)
+    elif f0[4] != f1[4] or f0[4] != (not f0[0]):
+        ctx.violation("is_valid-changed", case, "is_valid says %s without and %s with the insertions (iter_errors: %d error(s))" % (f0[4], f1[4], len(f0[0])), mech=mech)
     if f0 and f0[0] and any(e[4] for e in f0[0]):
         ctx.count("cases_with_context_errors")
     # the module-level entry point with this class given explicitly, on a schema whose $schema names ANOTHER draft: the
@@ -408,6 +411,52 @@ def root_ref_cases(ctx, d, rng):
                     compare(ctx, d, S, S2, log, inst)
 
 
+def _chain_store():
+    far = "http://far.example/lib/defs.json"
+    return {far: {"definitions": {"t": {"$ref": "leaf.json"}, "u": {"items": {"$ref": "leaf.json"}},
+                                  "w": {"$ref": "#/definitions/t"}, "x": {"properties": {"p": {"$ref": "sub/leaf.json#/definitions/i"}}}}},
+            "http://far.example/lib/leaf.json": {"type": "integer"},
+            "http://far.example/lib/sub/leaf.json": {"definitions": {"i": {"type": "integer"}}},
+            "http://base.example/leaf.json": {"type": "string"},
+            "http://base.example/sub/leaf.json": {"definitions": {"i": {"type": "string"}}}}
+
+
+def cross_document_chains(ctx, d, rng):
+    """A reference into ANOTHER document whose target itself refers on, relative to ITS document - standing where the
+    implementation only asks for a verdict (not, contains, if, oneOf, disallow, the root through is_valid) and elsewhere;
+    any member next to the first reference changes nothing."""
+    own = impl.IDKW[d]
+    far = "http://far.example/lib/defs.json"
+    store = _chain_store()
+
+    def rf(schema):
+        return RefResolver.from_schema(schema, id_of=impl.CLS[d].ID_OF, store=store)
+    for name in ("t", "u", "w", "x"):
+        for sib_name, sib_val in (("title", "t"), ("description", 5), ("x-vf", {"type": "null"}), ("type", "null"), ("enum", []), ("maxLength", 0)):
+            R, R2 = {"$ref": far + "#/definitions/" + name}, {"$ref": far + "#/definitions/" + name, sib_name: sib_val}
+            R3 = {sib_name: sib_val, "$ref": far + "#/definitions/" + name}
+            holders = [lambda r: r, lambda r: {"items": r}, lambda r: {"properties": {"q": r}}]
+            if d == 3:
+                holders += [lambda r: {"disallow": [r]}, lambda r: {"type": [r, "null"]}, lambda r: {"type": ["null", r]}, lambda r: {"extends": [{"disallow": [r]}]}]
+            else:
+                holders += [lambda r: {"not": r}, lambda r: {"oneOf": [{"type": "null"}, r]}, lambda r: {"oneOf": [r, {"enum": [1, "a"]}]},
+                            lambda r: {"anyOf": [{"not": r}, {"type": "array"}]}, lambda r: {"items": {"not": r}}]
+            if d >= 6:
+                holders += [lambda r: {"contains": r}, lambda r: {"propertyNames": {"not": r}}]
+            if d >= 7:
+                holders += [lambda r: {"if": r, "then": {"maximum": 3}, "else": {"minLength": 2}}, lambda r: {"if": {"not": r}, "then": {"type": "string"}}]
+            for h in holders:
+                for Ra in (R2, R3):
+                    S, S2 = h(R), h(Ra)
+                    if isinstance(S, dict) and "$ref" not in S:
+                        S, S2 = dict(S, **{own: "http://base.example/root.json"}), dict(S2, **{own: "http://base.example/root.json"})
+                    log = [{"path": [], "name": sib_name, "would_fail": True, "next_to_ref": True, "depth": 1}]
+                    for inst in (1, "a", [1], ["a"], None, [[1]], {"p": 1}, {"p": "a"}, {"q": 1}, {"q": ["a"]}, 7):
+                        ctx.count("next_to_ref")
+                        ctx.count("cross_document_chain_cases")
+                        compare(ctx, d, S, S2, log, inst, resolver_factory=rf)
+
+
 def empty_ref_cases(ctx, d, rng):
     """Siblings of `$ref` are ignored whatever the reference string is - including the empty
     reference "" (same document, like "#") and "#"."""
@@ -470,6 +519,7 @@ def run(ctx):
         if ctx.mine(d):
             base_uri_cases(ctx, d, rr)
             empty_ref_cases(ctx, d, rr)
+            cross_document_chains(ctx, d, rr)
             root_ref_cases(ctx, d, rr)
             embedded_lookalikes(ctx, d, rr)
             foreign_id_in_store_documents(ctx, d)
@@ -550,4 +600,9 @@ def replay(ctx, rec):
 
         def rf(schema):
             return RefResolver.from_schema(schema, id_of=impl.CLS[d].ID_OF, store=store)
+    if "far.example" in repr(c["schema"]):
+        store2 = _chain_store()
+
+        def rf(schema):
+            return RefResolver.from_schema(schema, id_of=impl.CLS[d].ID_OF, store=store2)
     compare(ctx, d, c["schema"], c["schema_with_insertions"], c["insertions"], c["instance"], resolver_factory=rf)
